@@ -167,6 +167,26 @@ def entry_points(j, version, allow, is_observable_type):
         for m in ("get", "all_versions", "query"):
             eps.append(("FileSystemSource.%s(version=)" % m, fs_read(m)))
 
+        if "modified" in j:
+            # the older on-disk layout (<type>/<id>.json for a versioned object) next to a sibling kept in the current layout
+            def fs_legacy(method):
+                def f():
+                    from stix2 import Filter
+                    d = sc.fresh()
+                    sib = dict(copy.deepcopy(j), id="%s--3f7f0c5f-5d54-4292-94ea-ec1e1952beff" % j["type"])
+                    write_raw(d, sib)
+                    with open(os.path.join(d, j["type"], id_ + ".json"), "w") as fh:
+                        json.dump(j, fh)
+                    src = FileSystemSource(d, **kw)
+                    if method == "get":
+                        return src.get(id_, version=version)
+                    if method == "all_versions":
+                        return src.all_versions(id_, version=version)
+                    return src.query([Filter("id", "=", id_)], version=version)
+                return f
+            for m in ("get", "all_versions", "query"):
+                eps.append(("FileSystemSource.%s(version=)[legacy-layout]" % m, fs_legacy(m)))
+
         def fstore_get():
             d = sc.fresh()
             write_raw(d, j)
@@ -238,6 +258,33 @@ def run_case(case, part):
                         part.violation("C14/differs-from-direct-parse/%s/%s/version-arg=%s" % (name.split("(")[0], kind, "named" if version else "none"),
                                        "an entry point that was given a version interprets the content differently from stix2.parse(..., version=)",
                                        dict(case, id_class=idc, version=version, allow_custom=allow, entry=name), list(exp), list(got) + ([str(err)[:100]] if err else []))
+    # SEQUENCES on one store: the same content added twice under every ordered pair of version arguments; the second call must be as strict as a direct parse
+    # with ITS version argument, whatever the store already holds
+    from stix2 import MemorySink, MemorySource, MemoryStore
+    for idc, u in IDS.items():
+        if "id" not in base or base.get("type") == "bundle":
+            break
+        j = copy.deepcopy(base)
+        j["id"] = "%s--%s" % (j["type"], u)
+        refs = {v: outcome(lambda: stix2.parse(copy.deepcopy(j), version=v, allow_custom=False))[0] for v in VERSIONS}
+        bj = {"type": "bundle", "id": "bundle--3f7f0c5f-5d54-4292-94ea-ec1e1952be0b", "objects": [copy.deepcopy(j)]}
+        for v1 in VERSIONS:
+            for v2 in VERSIONS:
+                for sname, mk, add in (("MemoryStore.add", lambda: MemoryStore(allow_custom=False), lambda s, v: s.add(copy.deepcopy(j), version=v)),
+                                       ("MemorySink.add", lambda: MemorySink(allow_custom=False), lambda s, v: s.add(copy.deepcopy(j), version=v)),
+                                       ("MemoryStore.add(bundle-dict)", lambda: MemoryStore(allow_custom=False), lambda s, v: s.add(copy.deepcopy(bj), version=v))):
+                    part.evaluations += 1
+                    part.transitions += 2
+                    st = mk()
+                    first, _ = outcome(lambda: add(st, v1) or 1)
+                    second, err = outcome(lambda: add(st, v2) or 1)
+                    want = "refused" if refs[v2][0] == "refused" else "accepted"
+                    got = "refused" if second[0] == "refused" else "accepted"
+                    part.outcome("second-add:" + got)
+                    if got != want and not (bj is not None and sname.endswith("(bundle-dict)") and cver == "2.0" and v2 == "2.1" and False):
+                        part.violation("C14/second-add-differs-from-direct-parse/%s/%s" % (sname, "first-accepted" if first[0] != "refused" else "first-refused"),
+                                       "the second add of the same content is not as strict as a direct parse with the version named on that call",
+                                       dict(case, id_class=idc, sequence=[v1, v2], entry=sname), want, got)
     # strictness must not depend on what was parsed before: the same id first goes through the relaxed ("interoperability") mode, then
     # the strict outcome is recomputed and must be what it was in the cold state
     for idc, u in IDS.items():
@@ -286,7 +333,8 @@ def run(run):
             cases.append({"content_version": cver, "key": key})
     run.mode = "DEV (differential)"
     run.rule = ("every type x content version x 5 identifier classes x version argument {None, 2.0, 2.1} x allow_custom {False, default} x up to 19 entry points; states = distinct "
-                "(content version, type); every case is a comparison with a direct stix2.parse(..., version=)")
+                "(content version, type); every case is a comparison with a direct stix2.parse(..., version=); + the older on-disk layout next to the current one; + the same content "
+                "added twice to one memory store / sink under every ordered pair of version arguments")
     run.bound = {"types": len(cases), "id_classes": list(IDS), "version_arguments": VERSIONS, "entry_points": 19}
     run.assumptions += ["minimal instances from the frozen spec model", "stix2.parse(content, allow_custom, version=version) is the reference (C02/C03 judge the parser itself)"]
     run.pmap(run_case, cases)
